@@ -57,7 +57,7 @@ impl SpanMap {
             ExpSpan::Exact(self.starts[s] + self.shift, self.ends[e - 1] + self.shift)
         } else {
             let lo = if s == 0 { 0 } else { self.ends[s - 1] };
-            let hi = if s < self.n() { self.starts[s] } else { self.eoi.0.max(lo) };
+            let hi = if s < self.n() { self.starts[s] } else { self.eoi.1.max(lo) };
             ExpSpan::EmptyIn(lo.min(hi) + self.shift, hi.max(lo) + self.shift)
         }
     }
